@@ -92,7 +92,7 @@ def run_inproc(capture: bytes, keylog_text=None, opts=(), legacy=False, trace=Fa
     argv = ["tlexport", "-i", inf, "-o", outf]
     if keylog_text is not None:
         kf = os.path.join(d, "keys.log")
-        with open(kf, "w", newline="") as f:
+        with open(kf, "w", newline="", encoding="utf-8") as f:
             f.write(keylog_text)
         argv += ["-s", kf]
     if legacy:
@@ -157,7 +157,7 @@ def run_subprocess(capture: bytes, keylog_text=None, opts=(), legacy=False, cwd=
     argv = [PY, "-B", "-m", "tlexport.main", "-i", inf, "-o", outf]
     if keylog_text is not None:
         kf = os.path.join(d, "keys.log")
-        with open(kf, "w", newline="") as f:
+        with open(kf, "w", newline="", encoding="utf-8") as f:
             f.write(keylog_text)
         argv += ["-s", kf]
     if legacy:
